@@ -35,6 +35,11 @@ def DICT(k, v):
     return ("dict", k, v)
 
 
+def SET(elem):
+    """(weak) set of object references stored in a field: membership predicate; iteration order unspecified"""
+    return ("set", elem)
+
+
 def PYTUP(*tys):
     """result type of a function returning a python tuple with non-scalar components, e.g. (key, list)"""
     return ("pytup", list(tys))
